@@ -5,6 +5,8 @@ import math
 import numpy as np
 from hypothesis import strategies as st
 
+from ..core import sampled_from  # noqa: E402
+
 from .. import build, facegen, meshgen
 from .. import sphere as S
 from ..core import Failure
@@ -89,16 +91,16 @@ def _check_table(case, ctx):
 # ----------------------------------------------------------------------------- generated
 @st.composite
 def _case(draw, tier):
-    kind = draw(st.sampled_from(["face", "face", "face", "mesh"]))
+    kind = draw(sampled_from(["face", "face", "face", "mesh"]))
     if kind == "mesh":
         mesh = draw(meshgen.hull_mesh(20, 46 if tier == "quick" else 90, partial=False, planted=True))
         return {
             "kind": "mesh",
             "mesh": mesh,
             "fperm_seed": draw(st.integers(0, 2**16)),
-            "radius": draw(st.sampled_from([None, None, 2.5, 6371229.0])),
-            "float32_source": draw(st.sampled_from([False, False, True])),
-            "rule": draw(st.sampled_from(RULES)),
+            "radius": draw(sampled_from([None, None, 2.5, 6371229.0])),
+            "float32_source": draw(sampled_from([False, False, True])),
+            "rule": draw(sampled_from(RULES)),
         }
     face = draw(facegen.convex_face(max_class=3, tiny=True))
     k = len(face["lonlat"])
@@ -106,12 +108,12 @@ def _case(draw, tier):
     c = {
         "kind": "face",
         "face": face,
-        "orders": draw(st.lists(st.sampled_from(RULES), min_size=1, max_size=n_orders, unique=True)),
+        "orders": draw(st.lists(sampled_from(RULES), min_size=1, max_size=n_orders, unique=True)),
         "start": draw(st.integers(1, k - 1)),
         "perm": draw(st.permutations(list(range(k)))),
         "quat": [draw(st.floats(-1, 1)) for _ in range(4)],
         "split": sorted(draw(st.lists(st.integers(0, k - 1), min_size=2, max_size=2, unique=True))) if k >= 4 else None,
-        "history": draw(st.lists(st.tuples(st.sampled_from(RULES), st.booleans(), st.sampled_from(["compute", "total"])), max_size=3)),
+        "history": draw(st.lists(st.tuples(sampled_from(RULES), st.booleans(), sampled_from(["compute", "total"])), max_size=3)),
         "read_cached_first": draw(st.booleans()),
     }
     return c
